@@ -152,6 +152,17 @@ def doExchange (k : ClientKind) (fl : Flusher) (hooks : Bool) (reqBytes : Bytes)
     | .rtu, _, .err e => (.err (.parse e), log)
     | .rtu, _, .panic => (.panic, log)
 
+/-- `Client.Do` / `SerialClient.Do` before the exchange: a nil request is refused first, then a client without a
+connection (serial: without a port); neither writes, reads nor calls a hook. `req` = the request's bytes and its
+announced response length. -/
+def doCall (k : ClientKind) (fl : Flusher) (hooks : Bool) (connected : Bool) (req : Option (Bytes × Nat))
+    (writeFails : Bool) (script : List Ev) : DoOut × List HookEv :=
+  match req with
+  | none => (.err .nilReq, [])
+  | some (reqBytes, expected) =>
+    if !connected then (.err .notConnected, [])
+    else doExchange k fl hooks reqBytes expected writeFails script
+
 /-- `Do` with a context that is already cancelled when the call is made: the request is still written (the write does
 not look at the context), then the read loop finds the context done before its first read. No read, no flush. -/
 def doExchangeCancelled (k : ClientKind) (fl : Flusher) (hooks : Bool) (reqBytes : Bytes) (writeFails : Bool) :
